@@ -155,11 +155,9 @@ impl Write for DBFile {
 
     fn write(&mut self, buf: &[u8]) -> io::Result<usize> {
         #[cfg(feature = "verif")]
-        let offset = self.f.stream_position()?;
-        let n = self.f.write(buf)?;
-        #[cfg(feature = "verif")]
-        crate::verif::iotap::record(&self.p, crate::verif::iotap::Kind::Write(offset, buf[..n].to_vec()));
-        Ok(n)
+        return crate::verif::iotap::write(&mut self.f, &self.p, buf);
+        #[allow(unreachable_code)]
+        self.f.write(buf)
     }
 }
 
@@ -216,17 +214,17 @@ impl FileOperations for DBFile {
 
     // truncate the file to 0 len
     fn truncate(&mut self) -> io::Result<()> {
-        self.f.set_len(0)?;
         #[cfg(feature = "verif")]
-        crate::verif::iotap::record(&self.p, crate::verif::iotap::Kind::SetLen(0));
-        Ok(())
+        return crate::verif::iotap::set_len(&self.f, &self.p, 0);
+        #[allow(unreachable_code)]
+        self.f.set_len(0)
     }
 
     // sync the file to disk
     fn sync_all(&self) -> io::Result<()> {
-        File::sync_all(&self.f)?;
         #[cfg(feature = "verif")]
-        crate::verif::iotap::record(&self.p, crate::verif::iotap::Kind::Sync);
-        Ok(())
+        return crate::verif::iotap::sync_all(&self.f, &self.p);
+        #[allow(unreachable_code)]
+        File::sync_all(&self.f)
     }
 }
